@@ -28,7 +28,7 @@ ASSUMPTIONS = [
     "the script stops at the first call that raises anything but solve()'s own failure; rows logged so far are still checked",
     "ties in penalty: the container may hold any row of minimum penalty",
 ]
-REQUIRED_CLASSES = ["call:step", "call:solve", "call:reload-row", "call:reload-tag", "call:tag", "call:disable", "call:enable",
+REQUIRED_CLASSES = ["rows-with-inactive-knob-reloaded", "call:step", "call:solve", "call:reload-row", "call:reload-tag", "call:tag", "call:disable", "call:enable",
                     "call:clear_log", "log:penalty-increase", "log:take_best-reload", "solve:failed", "solve:succeeded",
                     "rows-reloaded"]
 
@@ -45,7 +45,18 @@ def cases(draw):
     tags = []
     for _ in range(draw(st.integers(2, 10))):
         k = draw(st.sampled_from(["step"] * 5 + ["solve", "solve", "reload-row", "reload-row", "reload-tag", "tag", "tag",
-                                  "disable", "enable", "clear_log"]))
+                                  "disable", "enable", "clear_log", "episode", "episode"]))
+        if k == "episode":
+            # rows logged while a knob (or target) is inactive, after which it is enabled again and moves on:
+            # reloading such a row later must bring back the inactive knob's value and the flags
+            what = draw(st.sampled_from(["vary", "vary", "target"]))
+            idx = draw(st.integers(0, (n if what == "vary" else m) - 1))
+            by = draw(st.sampled_from(["id", "tag"]))
+            script.append({"op": "disable", "what": what, "idx": idx, "by": by})
+            script.append({"op": "step", "n": draw(st.integers(1, 2)), "take_best": draw(st.booleans()), "broyden": False})
+            script.append({"op": "enable", "what": what, "idx": idx, "by": by})
+            script.append({"op": "step", "n": draw(st.integers(1, 3)), "take_best": draw(st.booleans()), "broyden": False})
+            continue
         if k == "step":
             script.append({"op": "step", "n": draw(st.integers(1, 4)), "take_best": draw(st.sampled_from([True, True, True, False])),
                            "broyden": draw(st.sampled_from([False, False, True, 2]))})
@@ -218,6 +229,8 @@ def exec_case(ctx, spec):
             opt.reload(iteration=i)
         except Exception as e:
             return finish(Failure(f"C15:reload-raises:{type(e).__name__}", dict(where, raised=repr(e)[:200])))
+        if "n" in vact[i] and i + 1 < nrows and not np.array_equal(rows_knobs[i], rows_knobs[-1]):
+            classes.add("rows-with-inactive-knob-reloaded")
         got = OF.knob_vector(b)
         tol = OF.ulp_tol(rows_knobs[i], wv)
         if np.any(np.abs(got - rows_knobs[i]) > tol):
